@@ -9,7 +9,10 @@ for d in seeded/*/; do
   [ -f $d/patch.diff ] || continue
   n=$(echo $id | sed -E 's/.*c([0-9][0-9])_.*/\1/')
   if ! git -C /repo apply --check /verif/$d/patch.diff 2>/dev/null; then echo "$id: DOES-NOT-APPLY" | tee -a seeded/redetect.log; continue; fi
-  r=$(tools/seed_detect.sh /verif/$d/patch.diff /verif/$d quick C$n 2>&1 | tail -1)
+  # seeded/<id>/props (optional) names the properties whose checks are run when the change breaks
+  # another property than the one its author was given (see DESIGN.md 5.1); default: its own
+  props="C$n"; [ -f $d/props ] && props=$(cat $d/props)
+  r=$(tools/seed_detect.sh /verif/$d/patch.diff /verif/$d quick $props 2>&1 | grep " rc=" | tr '\n' ';')
   echo "$id: $r" | tee -a seeded/redetect.log
 done
 if [ "${1:-}" = reverts ]; then tools/revert_regress.sh 2>&1 | tee -a seeded/redetect.log; fi
